@@ -26,7 +26,7 @@ def lit(s):
 
 
 def caps(tier):
-    return dict(m=10, a=10, g=5, v=4, intmax=99) if tier == "quick" else dict(m=24, a=20, g=12, v=8, intmax=9999)
+    return dict(m=10, a=10, g=5, v=4, intmax=99) if tier == "quick" else dict(m=16, a=14, g=8, v=5, intmax=999)
 
 
 def make_queries(tier):
